@@ -32,6 +32,11 @@ CHECKS = {
    text='Props/C09.v: an estimator v accepted by the row-space test Q^T v = 1 returns sum(x) on noise-free answers; the inverse-variance combination of estimates all equal to N >= 1 is N; the result is >= 1 and is 1 when nothing is accepted. Every run drives the four copies (FactoredInference.estimate with MD/RDA/IG and earlier calls on the same engine, LocalInference._setup, public_inference.estimate_total, mixture_inference.estimate_total exec\'d from source) over the query families of the quantifier, records the lsmr output, evaluates the exact model on it, and checks selection (exactly the measurements whose row space contains the ones vector, by dense lstsq), noise-free => N, known totals used exactly.',
    design='4/C09',
    note='partial: lsmr is external (its output is an oracle input; that it is the minimum-norm solution = BLUE, and optimality of inverse-variance weights, are not proved). Theorems closed under the global context.'),
+ 'C10': dict(
+   technique='Coq proof (a zero potential entry annihilates its cells in every marginal of the explicit joint; updates keep zeros; guarded division; mass preserved) + differential checks of returned models with structural zeros',
+   text='Props/C10.v: for every semifield instance, potentials, total and attribute list covering the zero clique, the marginal of the explicit joint is 0 on every cell whose projection is a declared zero; multiplicative updates keep a zero; x / 0 := x never yields an undefined value; the remaining mass sums to the total. Each run estimates with zero sets on measured cliques (any attribute order), sub-cliques and unmeasured groups, for MD/RDA/IG, 1-150 iterations, warm start on/off and a second call on the same engine, and checks every answer path (project in/out of clique, data vector, calculate_many_marginals) directly (mass <= 1e-30*total on declared cells, finite, sums to total) and against the exact joint of the stored parameters.',
+   design='4/C10',
+   note='The theorem is about the marginals of the stored parameters; that the solvers keep the declared cells at parameter -inf is observed per run (RDA did not: fixed in 9960fce). Synthetic records: C11. Axiom: functional_extensionality_dep.'),
  'C12': dict(
    technique='Coq proofs (triangulation covers inputs; recursive running intersection => single top node per attribute; checker soundness) + differential correspondence of the elimination model and verified checkers run on the code\'s tree',
    text='Props/C12.v: for every clique set and every elimination order the model of _triangulated yields an elimination clique containing each input clique; the computable conditions evaluated on the tree the code builds (rooted unfolding from every root reaches each node once, recursive running intersection, eliminated attributes = complement of the node) imply the textbook property that the nodes containing any attribute form one connected subtree; cover / attribute-coverage / antichain checks and the schedule check (each direction exactly once, after its dependencies) are proved sound. Each run compares the code\'s node set with the model\'s maximal elimination cliques (exhaustively for all graphs on <=4 (quick) / <=5 (thorough) attributes x orders, plus random sets up to 8 attributes) and evaluates the verified checkers on the code\'s tree and schedule.',
